@@ -4,7 +4,7 @@
 # usage: tools/regress_seeded.sh [ids...]      output: one line per change, "CAUGHT" or "MISSED"
 set -u
 SRC="$(cd "$(dirname "$0")/.." && pwd)"
-W=/tmp/verif-mut; VM=/tmp/vm
+W=${REG_W:-/tmp/verif-mut}; VM=${REG_VM:-/tmp/vm}
 mkdir -p $W
 rsync -a --delete --exclude target --exclude 'target-*' --exclude .git --exclude replays --exclude evidence --exclude .repo "$SRC/" $W/
 if [ ! -d $VM ]; then git -C /repo worktree add -q --detach $VM HEAD; fi
